@@ -448,8 +448,12 @@ func judge(c *Case, dir string) (violation string, st stats) {
 					return "", st
 				}
 			}
-			resL, probL, missL, tel := L.Transition(ctx, plan)
-			resR, probR, missR, ter := R.Transition(ctx, plan)
+			// Each endpoint gets its own copy of the list, as two controllers
+			// would hand it over; results are paired with the list as the
+			// caller holds it afterwards.
+			planL, planR := append([]*core.Change{}, plan...), append([]*core.Change{}, plan...)
+			resL, probL, missL, tel := L.Transition(ctx, planL)
+			resR, probR, missR, ter := R.Transition(ctx, planR)
 			if (tel == nil) != (ter == nil) {
 				return fmt.Sprintf("op %d: transition: local error %v, remote error %v", oi, tel, ter), st
 			}
@@ -459,9 +463,16 @@ func judge(c *Case, dir string) (violation string, st stats) {
 			if len(resL) != len(resR) {
 				return fmt.Sprintf("op %d: transition: %d local results, %d remote", oi, len(resL), len(resR)), st
 			}
+			if len(resL) != len(plan) {
+				return fmt.Sprintf("op %d: transition: %d results for %d changes", oi, len(resL), len(plan)), st
+			}
+			byPathL, byPathR := map[string]*core.Entry{}, map[string]*core.Entry{}
 			for i := range resL {
-				if !tree.DeepEqual(resL[i], resR[i]) {
-					return fmt.Sprintf("op %d: transition result for %q differs: local %s remote %s", oi, plan[i].Path, tree.Render(resL[i]), tree.Render(resR[i])), st
+				byPathL[planL[i].Path], byPathR[planR[i].Path] = resL[i], resR[i]
+			}
+			for _, ch := range plan {
+				if !tree.DeepEqual(byPathL[ch.Path], byPathR[ch.Path]) {
+					return fmt.Sprintf("op %d: the result the caller pairs with the change at %q differs: local %s remote %s (change %s)", oi, ch.Path, tree.Render(byPathL[ch.Path]), tree.Render(byPathR[ch.Path]), tree.RenderChange(ch)), st
 				}
 			}
 			if missL != missR {
